@@ -1,0 +1,155 @@
+//go:build verif
+
+package server
+
+import "container/heap"
+
+// Contracts for the verification machinery in /verif (not compiled without the tag "verif").
+//
+// The timestamp store: tss maps a client id to its item, tssQ is a binary min-heap of the same items ordered by
+// qval (the most recent receive timestamp of the client), every item knows its heap index (qidx). All of it is
+// guarded by tssMu: every access to tss and tssQ must happen while tssMu is held, the representation invariant
+// tssOK() holds whenever tssMu is not held.
+
+//@ lock tssMu guards tss, tssQ
+
+//@ pred member(p) = (p != nil && 0 <= p.qidx && p.qidx < len(tssQ) && tssQ[p.qidx] == p)
+//@ pred queueIdx() = forall(i, 0, len(tssQ), tssQ[i] != nil && tssQ[i].qidx == i)
+//@ pred heapOrd() = forall(i, 1, len(tssQ), !tssQ[i].qval.Before(tssQ[(i-1)/2].qval))
+//@ pred heapOrdExcept(x) = forall(i, 1, len(tssQ), (i != x && (i-1)/2 != x ==> !tssQ[i].qval.Before(tssQ[(i-1)/2].qval)) && ((i-1)/2 == x && x >= 1 ==> !tssQ[i].qval.Before(tssQ[(x-1)/2].qval)))
+//@ pred itemOK(p) = (p.len <= 8 && forall(j, 0, p.len, !p.qval.Before(p.buf[j].rxt)) && forall(j, 0, p.len, forall(l, 0, p.len, j != l ==> p.buf[j].rxt != p.buf[l].rxt)))
+//@ pred itemsOK() = (all(p *tssItem, p != nil && 1 <= p.len ==> itemOK(p)) && all(p *tssItem, member(p) ==> 1 <= p.len))
+//@ pred mapOK() = all(k string, inmap(tss, k) ==> member(tss[k]) && tss[k].key == k)
+//@ pred queueMap() = all(p *tssItem, member(p) ==> inmap(tss, p.key) && tss[p.key] == p)
+//@ pred tssOK() = (tss != nil && len(tss) == len(tssQ) && len(tssQ) <= tssCap && queueIdx() && heapOrd() && itemsOK() && mapOK() && queueMap())
+
+// ---- the heap.Interface implementation (verified) ----
+
+//@ func (tssQueue).Len
+//@   ensures result == len(q)
+
+//@ func (tssQueue).Less
+//@   requires 0 <= i && i < len(q) && 0 <= j && j < len(q) && q[i] != nil && q[j] != nil
+//@   ensures result == q[i].qval.Before(q[j].qval)
+
+//@ func (tssQueue).Swap
+//@   requires 0 <= i && i < len(q) && 0 <= j && j < len(q) && q[i] != nil && q[j] != nil && (i != j ==> q[i] != q[j])
+//@   modifies q[:], q[i].qidx, q[j].qidx
+//@   ensures swapped: q[i] == old(q[j]) && q[j] == old(q[i]) && q[i].qidx == i && q[j].qidx == j
+//@   ensures rest: forall(k, 0, len(q), k != i && k != j ==> q[k] == old(q[k]))
+
+//@ func (*tssQueue).Push
+//@   requires q != nil && x != nil
+//@   requires hastype(x, (*tssItem)(nil)) && x.(*tssItem) != nil
+//@   modifies *q, (*q)[:], x.(*tssItem).qidx
+//@   allocates
+//@   ensures grown: len(*q) == old(len(*q))+1 && (*q)[len(*q)-1] == x.(*tssItem) && x.(*tssItem).qidx == old(len(*q))
+//@   ensures rest: forall(k, 0, old(len(*q)), (*q)[k] == old((*q)[k]))
+
+//@ func (*tssQueue).Pop
+//@   requires q != nil && len(*q) >= 1
+//@   modifies *q, (*q)[:]
+//@   ensures shrunk: len(*q) == old(len(*q))-1 && result.(*tssItem) == old((*q)[len(*q)-1])
+//@   ensures rest: forall(k, 0, len(*q), (*q)[k] == old((*q)[k]))
+
+// ---- container/heap on &tssQ: assumed contracts (the standard library is not verified here). They state what
+// the package documents: the heap invariant is (re-)established, the operations only permute the queue (plus the
+// pushed / minus the removed element), and, because they move elements only through Swap/Push/Pop above, every
+// element's qidx is its position afterwards. ----
+
+//@ extern container/heap.Push verifHeapPush &tssQ
+//@ extern container/heap.Pop verifHeapPop &tssQ
+//@ extern container/heap.Fix verifHeapFix &tssQ
+//@ extern container/heap.Remove verifHeapRemove &tssQ
+
+//@ func verifHeapPush
+//@   trusted
+//@   requires queueIdx() && heapOrd() && x != nil && !member(x)
+//@   modifies tssQ, tssQ[:], every(x.qidx)
+//@   allocates
+//@   ensures len(tssQ) == old(len(tssQ))+1 && queueIdx() && heapOrd() && member(x)
+//@   ensures all(p *tssItem, old(member(p)) ==> member(p))
+//@   ensures all(p *tssItem, member(p) ==> old(member(p)) || p == x)
+
+//@ func verifHeapPop
+//@   trusted
+//@   requires queueIdx() && heapOrd() && len(tssQ) >= 1
+//@   modifies tssQ, tssQ[:], every(tssQ[0].qidx)
+//@   ensures len(tssQ) == old(len(tssQ))-1 && queueIdx() && heapOrd() && result == old(tssQ[0])
+//@   ensures all(p *tssItem, old(member(p)) && p != result ==> member(p))
+//@   ensures all(p *tssItem, member(p) ==> old(member(p)) && p != result)
+
+//@ func verifHeapFix
+//@   trusted
+//@   requires queueIdx() && 0 <= i && i < len(tssQ) && heapOrdExcept(i)
+//@   modifies tssQ[:], every(tssQ[0].qidx)
+//@   ensures queueIdx() && heapOrd()
+//@   ensures all(p *tssItem, old(member(p)) == member(p))
+
+//@ func verifHeapRemove
+//@   trusted
+//@   requires queueIdx() && heapOrd() && 0 <= i && i < len(tssQ)
+//@   modifies tssQ, tssQ[:], every(tssQ[0].qidx)
+//@   ensures len(tssQ) == old(len(tssQ))-1 && queueIdx() && heapOrd() && result == old(tssQ[i])
+//@   ensures all(p *tssItem, old(member(p)) && p != result ==> member(p))
+//@   ensures all(p *tssItem, member(p) ==> old(member(p)) && p != result)
+
+func verifHeapPush(x *tssItem)       { heap.Push(&tssQ, x) }
+func verifHeapPop() *tssItem         { return heap.Pop(&tssQ).(*tssItem) }
+func verifHeapFix(i int)             { heap.Fix(&tssQ, i) }
+func verifHeapRemove(i int) *tssItem { return heap.Remove(&tssQ, i).(*tssItem) }
+
+// ---- request handling ----
+
+//@ pred interleaved(c, q) = (q.ReceiveTime != q.TransmitTime && old(inmap(tss, c)) && exists(j, 0, old(tss[c].len), old(tss[c].buf[j].rxt) == q.OriginTime))
+//@ pred evicts(c, t) = (!old(inmap(tss, c)) && old(len(tss)) == tssCap && !old(tssQ[0].qval).After(ntp.Time64FromTime(t)))
+
+//@ func handleRequest
+//@   noframe
+//@   split 0 1 2 4 5 6 7
+//@   requires req != nil && rxt != nil && txt != nil && resp != nil && rxt != txt && req != resp
+//@   requires 0 <= rxt.Unix() && rxt.Unix() <= 8589934592
+//@   requires tssOK()
+//@   entry rxt0 := *rxt
+//@   loop 0 invariant tssi != nil && tssi == tss[clientID] && inmap(tss, clientID)
+//@   loop 0 invariant rxt64 == ntp.Time64FromTime(*rxt) && txt64 == ntp.Time64FromTime(*txt)
+//@   loop 0 invariant rxt0.Before(lastnow()) && -1099511627776 <= rxt.Unix() && rxt.Unix() <= 1099511627776 ==> rxt.Before(*txt)
+//@   loop 0.0 invariant 0 <= i && i <= tssi.len
+//@   loop 0.0 invariant (o == -1 || (0 <= o && o < i && tssi.buf[o].rxt == req.OriginTime)) && (min == -1 || (0 <= min && min < i)) && (max == -1 || (0 <= max && max < i))
+//@   loop 0.0 invariant i > 0 ==> min != -1 && max != -1
+//@   loop 0.0 invariant max != -1 ==> !tssi.qval.Before(tssi.buf[max].rxt)
+//@   loop 0.0 invariant forall(j, 0, i, tssi.buf[j].rxt != rxt64 && !tssi.buf[max].rxt.Before(tssi.buf[j].rxt))
+//@   loop 0.0 invariant forall(j, 0, i, tssi.buf[j].rxt == req.OriginTime ==> o == j)
+//@   ensures ok: tssOK()
+//@   ensures header: resp.Version() == 4 && resp.Mode() == 4 && resp.Stratum == 1
+//@   ensures rx: resp.ReceiveTime == ntp.Time64FromTime(*rxt)
+//@   ensures rxunique: old(inmap(tss, clientID)) ==> forall(j, 0, old(tss[clientID].len), old(tss[clientID].buf[j].rxt) != resp.ReceiveTime)
+//@   ensures mono: rxt0.Before(lastnow()) && -1099511627776 <= rxt.Unix() && rxt.Unix() <= 1099511627776 ==> rxt.Before(*txt)
+//@   ensures basic: !interleaved(clientID, req) ==> resp.OriginTime == req.TransmitTime && resp.TransmitTime == ntp.Time64FromTime(*txt)
+//@   ensures inter: interleaved(clientID, req) ==> resp.OriginTime == req.ReceiveTime && forall(j, 0, old(tss[clientID].len), old(tss[clientID].buf[j].rxt) == req.OriginTime ==> resp.TransmitTime == old(tss[clientID].buf[j].txt))
+//@   ensures evict: evicts(clientID, rxt0) ==> !inmap(tss, old(tssQ[0].key))
+//@   ensures keep: all(k string, old(inmap(tss, k)) && !(evicts(clientID, rxt0) && k == old(tssQ[0].key)) ==> inmap(tss, k) && tss[k] == old(tss[k]))
+//@   ensures added: all(k string, inmap(tss, k) && !old(inmap(tss, k)) ==> k == clientID)
+//@   ensures stateless: !old(inmap(tss, clientID)) && old(len(tss)) == tssCap && !evicts(clientID, rxt0) ==> !inmap(tss, clientID)
+
+// updateTXTimestamp: rxt is the (unique) receive timestamp handleRequest reported for this exchange, *txt the kernel
+// transmit timestamp if one could be read and otherwise the value handleRequest recorded.
+//@ pred found(c, t) = (old(inmap(tss, c)) && exists(j, 0, old(tss[c].len), old(tss[c].buf[j].rxt) == t))
+//@ pred norecord(c, t, u) = (old(inmap(tss, c)) && exists(j, 0, old(tss[c].len), old(tss[c].buf[j].rxt) == t && old(tss[c].buf[j].txt) == u))
+
+//@ func updateTXTimestamp
+//@   noframe
+//@   split 1 2 3 4 5
+//@   requires txt != nil
+//@   requires -1099511627776 <= rxt.Unix() && rxt.Unix() <= 1099511627776
+//@   requires tssOK()
+//@   loop 0 invariant 0 <= i && i <= tssi.len
+//@   loop 0 invariant (x == -1 || (0 <= x && x < i && tssi.buf[x].rxt == rxt64)) && forall(j, 0, i, tssi.buf[j].rxt == rxt64 ==> x == j)
+//@   loop 0 invariant (max0 == -1) == (i == 0) && (max0 != -1 ==> 0 <= max0 && max0 < i) && forall(j, 0, i, !tssi.buf[max0].rxt.Before(tssi.buf[j].rxt))
+//@   loop 0 invariant (max1 == -1) == (i <= 1) && (max1 != -1 ==> 0 <= max1 && max1 < i && max1 != max0) && forall(j, 0, i, j != max0 ==> !tssi.buf[max1].rxt.Before(tssi.buf[j].rxt))
+//@   ensures ok: tssOK()
+//@   ensures later: rxt.Before(*txt)
+//@   ensures untouched: !found(clientID, ntp.Time64FromTime(rxt)) ==> all(k string, inmap(tss, k) == old(inmap(tss, k)) && tss[k] == old(tss[k])) && all(p *tssItem, p.len == old(p.len) && p.qval == old(p.qval) && forall(j, 0, 8, p.buf[j] == old(p.buf[j])))
+//@   ensures recorded: found(clientID, ntp.Time64FromTime(rxt)) && !norecord(clientID, ntp.Time64FromTime(rxt), ntp.Time64FromTime(*txt)) ==> inmap(tss, clientID) && tss[clientID] == old(tss[clientID]) && tss[clientID].len == old(tss[clientID].len) && forall(j, 0, tss[clientID].len, tss[clientID].buf[j].rxt == old(tss[clientID].buf[j].rxt) && (tss[clientID].buf[j].rxt == ntp.Time64FromTime(rxt) ==> tss[clientID].buf[j].txt == ntp.Time64FromTime(*txt)) && (tss[clientID].buf[j].rxt != ntp.Time64FromTime(rxt) ==> tss[clientID].buf[j].txt == old(tss[clientID].buf[j].txt)))
+//@   ensures dropped: norecord(clientID, ntp.Time64FromTime(rxt), ntp.Time64FromTime(*txt)) ==> (old(tss[clientID].len) == 1 ==> !inmap(tss, clientID)) && (old(tss[clientID].len) != 1 ==> inmap(tss, clientID) && tss[clientID] == old(tss[clientID]) && tss[clientID].len == old(tss[clientID].len)-1 && forall(j, 0, tss[clientID].len, tss[clientID].buf[j].rxt != ntp.Time64FromTime(rxt)))
+//@   ensures others: all(k string, k != clientID ==> inmap(tss, k) == old(inmap(tss, k)) && tss[k] == old(tss[k]))
